@@ -38,7 +38,7 @@ fn scenario<W: Send, R: Send>(name: &str, w: W, wait: impl FnOnce(W) -> R + Send
     let r = thread::scope(|s| {
         let lw = l.clone();
         let h = s.spawn(move || { lw.who.set(thread::current().id()).unwrap(); wait(w) });
-        let deadline = Instant::now() + Duration::from_secs(20);
+        let deadline = Instant::now() + Duration::from_secs(90);
         while l.loads.load(SeqCst) < 3 {
             if h.is_finished() { fail(name, "wait_for returned although fewer items than requested were available".into()); }
             if Instant::now() > deadline { fail(name, "the waiting thread never looked at its successor's index".into()); }
@@ -46,7 +46,7 @@ fn scenario<W: Send, R: Send>(name: &str, w: W, wait: impl FnOnce(W) -> R + Send
         }
         inspect();
         deliver();
-        let deadline = Instant::now() + Duration::from_secs(20);
+        let deadline = Instant::now() + Duration::from_secs(90);
         while !h.is_finished() {
             if Instant::now() > deadline { fail(name, "wait_for did not return after the awaited items were published".into()); }
             thread::yield_now();
